@@ -185,6 +185,27 @@ def adfStep (a : AdfSt) (l : String) (ws : List String) : Option (List String ×
     let b := buildNative a.n a.fms.toList
     let cs := b.2.map (fun t => let c := countF b.1 (t + 1) t; s!"{c.1},{c.2.1}")
     some ([l, "= exit=0 counts=" ++ (if cs.isEmpty then "-" else joinWith " " cs)], a)
+  | ["clicheck", mode, flags, code, wf, lines] =>
+    -- section by section, in the documented order: the k-th block of printed lines must be the
+    -- specification's answer for the k-th section (as a multiset)
+    let m := parseMode mode
+    let f := parseFlags flags
+    let tts := a.tts
+    let blocks := (Cli.sections m f).map (fun sec => Spec.sortStrings ((Cli.specSection a.n tts sec).map Spec.showI3))
+    let ls := splitOnNE lines ","
+    let verdict := Id.run do
+      if code != "0" then return "violated exit-status"
+      if wf != "1" then return "violated line-format"
+      if ls.length != (blocks.map List.length).sum then return s!"violated line-count {ls.length} {(blocks.map List.length).sum}"
+      let mut rest := ls
+      let mut k := 0
+      for b in blocks do
+        let here := rest.take b.length
+        rest := rest.drop b.length
+        if Spec.sortStrings here != b then return s!"violated section {k}"
+        k := k + 1
+      return "ok"
+    some ([l, s!"~ {verdict}"], a)
   | ["clibad", _, _, _] => some ([l, "~ rejected"], a)
   | ["cliexport", _] => some ([l, "~ export ok"], a)
   | ["cliq", _] => some ([l, "~ exit=0 T(a&b)_T(c)"], a)
